@@ -218,14 +218,12 @@ Definition unknown_of_mp (norm : str -> str) (n : Z) (items : list mp) (t : ty) 
   end.
 
 (* ---------- Marshal ---------- *)
-Fixpoint mp_marshal_at (trunc : str -> str) (fuel : nat) (v : value) (t : ty) : res mp :=
-  match fuel with
-  | O => OutOfFuel
-  | S f =>
+(* one level of the encoder; [rec] encodes the members (the encoder with one unit of fuel less) *)
+Definition mp_marshal_step (trunc : str -> str) (rec : value -> ty -> res mp) (v : value) (t : ty) : res mp :=
     if is_marked v then Err OtherError else
     if is_dyn t && negb (is_dyn (vty v)) then
       match type_to_json (vty v) with
-      | Ok tj => match mp_marshal_at trunc f v (vty v) with
+      | Ok tj => match rec v (vty v) with
                  | Ok m => Ok (MArr [MBin [] (Some tj); m])
                  | r => r
                  end
@@ -240,24 +238,24 @@ Fixpoint mp_marshal_at (trunc : str -> str) (fuel : nat) (v : value) (t : ty) : 
     | TList e, PSeq l =>
         let ev := match vty v with TList ev => ev | _ => e end in
         do ms <- (fix go (l : list payload) : res (list mp) :=
-                    match l with [] => Ok [] | x :: l' => do m <- mp_marshal_at trunc f (V ev x) e; do r <- go l'; Ok (m :: r) end) l;
+                    match l with [] => Ok [] | x :: l' => do m <- rec (V ev x) e; do r <- go l'; Ok (m :: r) end) l;
         Ok (MArr ms)
     | TSet e, PSet bs =>
         let ev := match vty v with TSet ev => ev | _ => e end in
         do l <- set_values ev bs;
         do ms <- (fix go (l : list payload) : res (list mp) :=
-                    match l with [] => Ok [] | x :: l' => do m <- mp_marshal_at trunc f (V ev x) e; do r <- go l'; Ok (m :: r) end) l;
+                    match l with [] => Ok [] | x :: l' => do m <- rec (V ev x) e; do r <- go l'; Ok (m :: r) end) l;
         Ok (MArr ms)
     | TMap e, PMap m =>
         let ev := match vty v with TMap ev => ev | _ => e end in
         do kvs <- (fix go (l : list (str * payload)) : res (list (mp * mp)) :=
-                     match l with [] => Ok [] | kv :: l' => do x <- mp_marshal_at trunc f (V ev (snd kv)) e; do r <- go l'; Ok ((MStr (fst kv), x) :: r) end) m;
+                     match l with [] => Ok [] | kv :: l' => do x <- rec (V ev (snd kv)) e; do r <- go l'; Ok ((MStr (fst kv), x) :: r) end) m;
         Ok (MMap kvs)
     | TTuple es, PSeq l =>
         let evs := match vty v with TTuple evs => evs | _ => [] end in
         do ms <- (fix go (ts tvs : list ty) (l : list payload) : res (list mp) :=
                     match ts, tvs, l with
-                    | te :: ts', tv :: tvs', x :: l' => do m <- mp_marshal_at trunc f (V tv x) te; do r <- go ts' tvs' l'; Ok (m :: r)
+                    | te :: ts', tv :: tvs', x :: l' => do m <- rec (V tv x) te; do r <- go ts' tvs' l'; Ok (m :: r)
                     | _, _, [] => Ok []
                     | _, _, _ => Panic
                     end) es evs l;
@@ -269,14 +267,18 @@ Fixpoint mp_marshal_at (trunc : str -> str) (fuel : nat) (v : value) (t : ty) : 
                      | [] => Ok []
                      | kt :: l' =>
                          match lookup (fst kt) avs, lookup (fst kt) m with
-                         | Some tv, Some x => do y <- mp_marshal_at trunc f (V tv x) (snd kt); do r <- go l'; Ok ((MStr (fst kt), y) :: r)
+                         | Some tv, Some x => do y <- rec (V tv x) (snd kt); do r <- go l'; Ok ((MStr (fst kt), y) :: r)
                          | _, _ => Panic
                          end
                      end) attrs;
         Ok (MMap kvs)
     | TCap _, _ => Err OtherError
     | _, _ => Panic
-    end
+    end.
+Fixpoint mp_marshal_at (trunc : str -> str) (fuel : nat) : value -> ty -> res mp :=
+  match fuel with
+  | O => fun _ _ => OutOfFuel
+  | S f => mp_marshal_step trunc (mp_marshal_at trunc f)
   end.
 Definition mp_marshal (trunc : str -> str) (v : value) (t : ty) : res mp :=
   mp_marshal_at trunc (S (psize (vp v)) + ty_size t + ty_size (vty v)) v t.
